@@ -53,7 +53,14 @@ def const_scalar():
 
 def scalar_expr(ctx, depth=2, allow_none=True):
     d = ctx.draw
-    choice = d(st.integers(0, 17 if depth > 0 else 5))
+    choice = d(st.integers(0, 19 if depth > 0 else 5))
+    if choice >= 18:
+        # a callable that the object offers as an ITEM only (mapping key /
+        # __getitem__), or as a real attribute, called at once
+        obj, name = d(st.sampled_from([("o1", "fn"), ("o1", "fn"),
+                                       ("d1", "fn"), ("o2", "fn")]))
+        return ["callv", ["attr", ["var", obj], name],
+                [["const", d(st.sampled_from(["1", "'a'", "'<'"]))]]]
     if choice == 12:
         # lambda whose parameter shadows a template variable (or a builtin)
         p = d(st.sampled_from(SCALAR_VARS + ["id", "x"]))
@@ -590,6 +597,11 @@ def bindings_strategy():
             min_size=0, max_size=6)),
         "o0": st.builds(lambda a, b: ["attrobj", [["a", a], ["b", b]]],
                         sc, sc),
+        # callables reachable as item only (object / dictionary) and as
+        # attribute
+        "o1": st.just(["itemobj", [["fn", ["func", "I"]]]]),
+        "d1": st.just(["dict", [["fn", ["func", "D"]]]]),
+        "o2": st.just(["attrobj", [["fn", ["func", "A"]]]]),
     })
 
 
